@@ -3,7 +3,7 @@
 From Coq Require Import ZArith List Bool Lia Znumtheory.
 From PySnark.Base Require Import FieldZ Bits.
 From PySnark.Model Require Import Lc Sym Good Gadgets Api.
-From PySnark.Proofs Require Import Meta Frame Wp WpBase GadgetsOK Values.
+From PySnark.Proofs Require Import Meta Frame Wp WpBase GadgetsOK Values FxValues.
 Import ListNotations.
 Open Scope Z_scope.
 
@@ -88,6 +88,60 @@ Proof.
   unfold Values.returns, pyop, FUEL. cbn [binop dispatch lc_dunder lc_divmod bind ret uneg same_class NI].
   repeat apply wp_bind. apply divmod_wp; [exact I|]. intros [q r] s' sg' _ [Vq _]. cbn [ret wp tuple_nth nth fst snd is_lc] in *. rewrite Vq. cbn [sval constv]. esimp. reflexivity.
 Qed.
+(* linear operators emit nothing and return the Python value (all operand kinds secret / int) *)
+Theorem op_add x y : returns (pyop c OAdd (PLC x) (PLC y)) s sg (is_lc (fun r => r = v x + v y)).
+Proof. unfold Values.returns, pyop, FUEL. cbn [binop dispatch lc_dunder bind ret wp is_lc]. opv. reflexivity. Qed.
+Theorem op_sub x y : returns (pyop c OSub (PLC x) (PLC y)) s sg (is_lc (fun r => r = v x - v y)).
+Proof. unfold Values.returns, pyop, FUEL. cbn [binop dispatch lc_dunder uneg bind ret wp is_lc]. opv. ring. Qed.
+Theorem op_add_int x k : returns (pyop c OAdd (PLC x) (PInt k)) s sg (is_lc (fun r => r = v x + k)).
+Proof. unfold Values.returns, pyop, FUEL. cbn [binop dispatch lc_dunder bind ret wp is_lc]. opv. reflexivity. Qed.
+Theorem op_radd_int k x : returns (pyop c OAdd (PInt k) (PLC x)) s sg (is_lc (fun r => r = k + v x)).
+Proof. unfold Values.returns, pyop, FUEL. cbn [binop dispatch lc_dunder lc_rdunder same_class NI bind ret wp is_lc]. opv. ring. Qed.
+Theorem op_sub_int x k : returns (pyop c OSub (PLC x) (PInt k)) s sg (is_lc (fun r => r = v x - k)).
+Proof. unfold Values.returns, pyop, FUEL. cbn [binop dispatch lc_dunder uneg bind ret wp is_lc]. opv. ring. Qed.
+Theorem op_rsub_int k x : returns (pyop c OSub (PInt k) (PLC x)) s sg (is_lc (fun r => r = k - v x)).
+Proof. unfold Values.returns, pyop, FUEL. cbn [binop dispatch lc_dunder lc_rdunder same_class NI uneg bind ret wp is_lc]. opv. ring. Qed.
+Theorem op_mul_int x k : returns (pyop c OMul (PLC x) (PInt k)) s sg (is_lc (fun r => r = v x * k)).
+Proof. unfold Values.returns, pyop, FUEL. cbn [binop dispatch lc_dunder bind ret wp is_lc]. cbn [sval scale]. esimp. reflexivity. Qed.
+Theorem op_rmul_int k x : returns (pyop c OMul (PInt k) (PLC x)) s sg (is_lc (fun r => r = k * v x)).
+Proof. unfold Values.returns, pyop, FUEL. cbn [binop dispatch lc_dunder lc_rdunder same_class NI bind ret wp is_lc]. cbn [sval scale]. esimp. ring. Qed.
+Theorem op_neg x : returns (unop c (pyop c) UNeg (PLC x)) s sg (is_lc (fun r => r = - v x)).
+Proof. unfold Values.returns, unop. cbn [uneg ret wp is_lc]. cbn [sval neg]. esimp. reflexivity. Qed.
+(* the remaining comparisons *)
+Theorem op_gt x y : returns (pyop c OGt (PLC x) (PLC y)) s sg (is_bool (fun r => r = b2z (v y <? v x))).
+Proof.
+  unfold Values.returns, pyop, FUEL. cbn [binop dispatch lc_dunder bind ret uneg same_class m_check_positive boolr NI].
+  apply wp_bind. apply wp_bind. apply check_positive_wp; [exact I|]. intros r s' sg' _ _ V. cbn [ret wp is_bool]. rewrite (V Chk).
+  match goal with |- context [ve sg (sval ?d)] => replace (ve sg (sval d)) with (v x - v y - 1) by (opv; ring) end.
+  destruct (Z.leb_spec 0 (v x - v y - 1)), (Z.ltb_spec (v y) (v x)); try reflexivity; lia.
+Qed.
+Theorem op_ge x y : returns (pyop c OGe (PLC x) (PLC y)) s sg (is_bool (fun r => r = b2z (v y <=? v x))).
+Proof.
+  unfold Values.returns, pyop, FUEL. cbn [binop dispatch lc_dunder bind ret uneg same_class m_check_positive boolr NI].
+  apply wp_bind. apply wp_bind. apply check_positive_wp; [exact I|]. intros r s' sg' _ _ V. cbn [ret wp is_bool]. rewrite (V Chk).
+  match goal with |- context [ve sg (sval ?d)] => replace (ve sg (sval d)) with (v x - v y) by (opv; ring) end.
+  destruct (Z.leb_spec 0 (v x - v y)), (Z.leb_spec (v y) (v x)); try reflexivity; lia.
+Qed.
+Theorem op_ne x y : returns (pyop c ONe (PLC x) (PLC y)) s sg (is_bool (fun r => r = b2z (negb (v x =? v y)))).
+Proof.
+  unfold Values.returns, pyop, FUEL. cbn [binop dispatch lc_dunder bind ret uneg same_class m_check_nonzero NI].
+  apply wp_bind. apply wp_bind. apply check_zero_wp; [exact F|exact I|]. intros r s' sg' _ _ _ V. cbn [ret wp is_bool]. unfold bnot, rsubc. cbn [sval add neg constv]. esimp. rewrite V.
+  replace (ve sg (sval (add x (neg y)))) with (v x - v y) by (opv; ring).
+  destruct (Z.eqb_spec (v x - v y) 0), (Z.eqb_spec (v x) (v y)); try reflexivity; lia.
+Qed.
+Theorem op_eq_int x k : returns (pyop c OEq (PLC x) (PInt k)) s sg (is_bool (fun r => r = b2z (v x =? k))).
+Proof.
+  unfold Values.returns, pyop, FUEL. cbn [binop dispatch lc_dunder bind ret uneg same_class m_check_zero boolr NI].
+  apply wp_bind. apply wp_bind. apply check_zero_wp; [exact F|exact I|]. intros r s' sg' _ _ _ V. cbn [ret wp is_bool]. rewrite V.
+  match goal with |- context [ve sg (sval ?d)] => replace (ve sg (sval d)) with (v x - k) by (opv; ring) end.
+  destruct (Z.eqb_spec (v x - k) 0), (Z.eqb_spec (v x) k); try reflexivity; lia.
+Qed.
+(* exact division: returns only if the divisor is non-zero and divides the dividend, and then the quotient *)
+Theorem op_truediv x y : returns (pyop c OTrueDiv (PLC x) (PLC y)) s sg (is_lc (fun r => r = v x / v y /\ v x mod v y = 0 /\ v y <> 0)).
+Proof.
+  unfold Values.returns, pyop, FUEL. cbn [binop dispatch lc_dunder bind ret uneg same_class lcr NI].
+  apply wp_bind. apply wp_bind. apply truediv_wp; [exact I|]. intros r s' sg' _ V. cbn [ret wp is_lc]. exact (V Chk).
+Qed.
 (* branching.if_then_else on two secret integers with a LinCombBool condition (no identity shortcut) *)
 Theorem op_select cb t f o : same_val (PLC t) (PLC f) = false ->
   returns (if_then_else c (pyop c) (PBool o cb) (PLC t) (PLC f)) s sg (is_lc (fun r => r = v f + v cb * (v t - v f))).
@@ -98,5 +152,77 @@ Proof.
   cbn [ret wp bind lcr is_lc]. cbn [sval add]. esimp. rewrite Vm. cbn [sval add neg]. esimp.
   cbn [vscopedb sval add neg] in Ctf. apply andb_prop in Ctf. destruct Ctf as [Ct Cf]. cbn [vscopedb] in Cf. apply andb_prop in Cf. destruct Cf as [_ Cf].
   rewrite (ve_ext ins ig _ _ _ _ (proj1 I) (proj1 (proj2 P)) Cf). ring.
+Qed.
+(* ---- fixed-point operands (C14): the operators act on the integer representations rep = value * 2^resolution ---- *)
+Definition is_fx (P : Z -> Prop) (r : pyval) (sg' : store) : Prop := match r with PFxp _ q => P (ve sg' (sval q)) | _ => False end.
+Local Notation Rz := (Api.R c).
+Ltac fxd := unfold Values.returns, pyop, FUEL;
+  cbn [binop dispatch fxp_dunder' fxp_dunder ensurefxp lc_dunder bind ret uneg same_class m_check_positive m_check_zero m_check_nonzero boolr NI].
+(* comparisons compare the representations, i.e. the rationals (same positive scale on both sides) *)
+Theorem op_fx_lt o o' f g : returns (pyop c OLt (PFxp o f) (PFxp o' g)) s sg (is_bool (fun r => r = b2z (v f <? v g))).
+Proof.
+  fxd. repeat apply wp_bind. apply check_positive_wp; [exact I|]. intros r s' sg' _ _ V. cbn [ret wp is_bool]. rewrite (V Chk).
+  match goal with |- context [ve sg (sval ?d)] => replace (ve sg (sval d)) with (v g - v f - 1) by (opv; ring) end.
+  destruct (Z.leb_spec 0 (v g - v f - 1)), (Z.ltb_spec (v f) (v g)); try reflexivity; lia.
+Qed.
+Theorem op_fx_le o o' f g : returns (pyop c OLe (PFxp o f) (PFxp o' g)) s sg (is_bool (fun r => r = b2z (v f <=? v g))).
+Proof.
+  fxd. repeat apply wp_bind. apply check_positive_wp; [exact I|]. intros r s' sg' _ _ V. cbn [ret wp is_bool]. rewrite (V Chk).
+  match goal with |- context [ve sg (sval ?d)] => replace (ve sg (sval d)) with (v g - v f) by (opv; ring) end.
+  destruct (Z.leb_spec 0 (v g - v f)), (Z.leb_spec (v f) (v g)); try reflexivity; lia.
+Qed.
+Theorem op_fx_eq o o' f g : returns (pyop c OEq (PFxp o f) (PFxp o' g)) s sg (is_bool (fun r => r = b2z (v f =? v g))).
+Proof.
+  fxd. repeat apply wp_bind. apply check_zero_wp; [exact F|exact I|]. intros r s' sg' _ _ _ V. cbn [ret wp is_bool]. rewrite V.
+  match goal with |- context [ve sg (sval ?d)] => replace (ve sg (sval d)) with (v f - v g) by (opv; ring) end.
+  destruct (Z.eqb_spec (v f - v g) 0), (Z.eqb_spec (v f) (v g)); try reflexivity; lia.
+Qed.
+(* comparison with a plain integer k: the integer is scaled to k * 2^resolution *)
+Theorem op_fx_lt_int o f k : returns (pyop c OLt (PFxp o f) (PInt k)) s sg (is_bool (fun r => r = b2z (v f <? k * Rz))).
+Proof.
+  fxd. repeat apply wp_bind. apply check_positive_wp; [exact I|]. intros r s' sg' _ _ V. cbn [ret wp is_bool]. rewrite (V Chk).
+  match goal with |- context [ve sg (sval ?d)] => replace (ve sg (sval d)) with (k * Rz - v f - 1) by (opv; ring) end.
+  destruct (Z.leb_spec 0 (k * Rz - v f - 1)), (Z.ltb_spec (v f) (k * Rz)); try reflexivity; lia.
+Qed.
+(* sums, differences and integer multiples are exact *)
+Theorem op_fx_add o o' f g : returns (pyop c OAdd (PFxp o f) (PFxp o' g)) s sg (is_fx (fun r => r = v f + v g)).
+Proof. fxd. cbn [ret wp is_fx]. opv. reflexivity. Qed.
+Theorem op_fx_sub o o' f g : returns (pyop c OSub (PFxp o f) (PFxp o' g)) s sg (is_fx (fun r => r = v f - v g)).
+Proof. fxd. cbn [ret wp is_fx]. opv. ring. Qed.
+Theorem op_fx_mul_int o f k : returns (pyop c OMul (PFxp o f) (PInt k)) s sg (is_fx (fun r => r = v f * k)).
+Proof. fxd. cbn [ret wp is_fx]. cbn [sval scale]. esimp. reflexivity. Qed.
+(* product and quotient through the operator dispatch: floor(rep a * rep b / 2^r) and floor(rep a * 2^r / rep b) *)
+Theorem op_fx_mul o o' f g : returns (pyop c OMul (PFxp o f) (PFxp o' g)) s sg (is_fx (fun r => r = (v f * v g) / Rz)).
+Proof.
+  unfold Values.returns, pyop, FUEL. cbn [binop dispatch fxp_dunder']. apply wp_bind.
+  eapply wp_mono; [|apply (fxp_mul_value ins ig c (binop c 11) s sg f g o' I)]. intros a s' sg' H. destruct a; try contradiction. cbn [ret wp is_fx]. exact H.
+Qed.
+Theorem op_fx_truediv o o' f g : returns (pyop c OTrueDiv (PFxp o f) (PFxp o' g)) s sg (is_fx (fun r => r = (v f * Rz) / v g)).
+Proof.
+  unfold Values.returns, pyop, FUEL. cbn [binop dispatch fxp_dunder']. apply wp_bind.
+  eapply wp_mono; [|apply (fxp_div_value ins ig c (binop c 11) s sg f g o' I)]. intros a s' sg' H. destruct a; try contradiction. cbn [ret wp is_fx]. exact H.
+Qed.
+(* ---- secret booleans (LinCombBool): &, |, ^, ~ return the values of the boolean connectives on 0/1 values ---- *)
+Ltac bd := unfold Values.returns, pyop, FUEL; cbn [binop dispatch bool_dunder ensurebool bind ret same_class NI].
+Theorem op_bool_and o o' a b : returns (pyop c OAnd (PBool o a) (PBool o' b)) s sg (is_bool (fun r => r = v a * v b)).
+Proof.
+  bd. apply wp_bind. apply wp_bind. apply mul_wp; [exact I|]. intros m s' sg' _ _ Vm _ _. unfold mkbool, raise_if. cbn [bind ret wp]. intros _ _.
+  cbn [is_bool]. exact Vm.
+Qed.
+Theorem op_bool_or o o' a b : returns (pyop c OOr (PBool o a) (PBool o' b)) s sg (is_bool (fun r => r = v a + v b - v a * v b)).
+Proof.
+  bd. apply wp_bind. apply wp_bind. apply mul_wp; [exact I|]. intros m s' sg' P _ Vm Ca Cb. unfold mkbool, raise_if. cbn [bind ret wp]. intros _ _.
+  cbn [is_bool]. unfold sub. cbn [sval add neg]. esimp. rewrite Vm.
+  rewrite (ve_ext ins ig _ _ _ _ (proj1 I) (proj1 (proj2 P)) Ca), (ve_ext ins ig _ _ _ _ (proj1 I) (proj1 (proj2 P)) Cb). ring.
+Qed.
+Theorem op_bool_xor o o' a b : returns (pyop c OXor (PBool o a) (PBool o' b)) s sg (is_bool (fun r => r = v a + v b - 2 * v a * v b)).
+Proof.
+  bd. apply wp_bind. apply wp_bind. apply mul_wp; [exact I|]. intros m s' sg' P _ Vm Ca Cb. unfold mkbool, raise_if. cbn [bind ret wp]. intros _ _.
+  cbn [is_bool]. unfold sub. cbn [sval add neg]. esimp. rewrite Vm. cbn [sval scale] in *. esimp. cbn [vscopedb] in Ca. apply andb_prop in Ca. destruct Ca as [Ca _].
+  rewrite (ve_ext ins ig _ _ _ _ (proj1 I) (proj1 (proj2 P)) Ca), (ve_ext ins ig _ _ _ _ (proj1 I) (proj1 (proj2 P)) Cb). ring.
+Qed.
+Theorem op_bool_not o a : returns (unop c (pyop c) UInvert (PBool o a)) s sg (is_bool (fun r => r = 1 - v a)).
+Proof.
+  unfold Values.returns, unop, mkbool, raise_if. cbn [bind ret wp]. intros _ _. cbn [is_bool]. unfold bnot, rsubc. cbn [sval add neg constv]. esimp. ring.
 Qed.
 End OV.
